@@ -3,7 +3,7 @@ import json
 from . import common as C, arb
 
 # row layout of Arb.Cases.arb_case
-ID, MASK, MFIN, FIRST, SP_H, SP_L, SPA_H, SPA_L, OI, NEV, VH, TR = range(12)
+ID, MASK, MFIN, FIRST, SP_H, SP_L, SPA_H, SPA_L, OI, NEV, VH, TR, CI = range(13)
 # components of the model that C01's theorems talk about: hosts (4) and resources incl. ValidHosts (16)
 RELEVANT = 4 | 16
 
@@ -36,6 +36,12 @@ def judge(run, cases, rows):
             run.failing({"kind": "owner-not-least"}, [c],
                         "C01: after step %d of case %d the owner of some host in Configuration.hosts is not the least claimant (or a claimed host has no owner)"
                         % (r[SP_H], c["id"]), theorem="Arb.Spec.hosts_spec_ok")
+        elif r[CI] != 0:
+            st = c["histories"][0]["steps"][r[CI] - 1] if c["histories"][0].get("steps") else {}
+            run.failing({"kind": "one-hostname-two-owners", "how": "letter-case"}, [c],
+                        "C01: after step %d of case %d Configuration.hosts has two entries for one hostname (they differ in letter case only; DNS names, NGINX server names and the "
+                        "TLS passthrough map ignore case), each with an owner of its own: %s" % (r[CI], c["id"], json.dumps(st.get("hosts"))[:300]),
+                        theorem="Arb.Cases.ci_hosts_run")
         elif r[VH] != 0:
             run.failing({"kind": "valid-hosts"}, [c],
                         "C01: after step %d of case %d an Ingress in GetResources() is rendered with a host the host map gives to another resource (or without a host it owns): "
